@@ -135,7 +135,11 @@ class Ctx:
         """False if this case is filtered out by a replay.  walk=True is for graph explorations whose later
         states are only reachable by executing earlier transitions: the transition is executed but nothing is
         recorded for it unless it is the replayed case"""
-        return self.only is None or walk or cid == self.only
+        if self.only is None or walk or cid == self.only:
+            return True
+        # a derived case (<parent>/deg-vs-rad compares two sibling cases of the same parent) is replayed by executing its siblings;
+        # nothing is recorded for them (case() / fail() only record the replayed id)
+        return self.only.endswith('/deg-vs-rad') and cid.rsplit('/', 1)[0] == self.only.rsplit('/', 1)[0]
 
     def case(self, cid, key=None, trivial=False, n=1):
         """register n executed evaluations for case cid; key identifies the concrete input"""
@@ -162,6 +166,8 @@ class Ctx:
     def fail(self, cid, site, kind, params, detail=''):
         if self.only is not None and cid != self.only:
             return
+        if self.only is not None and self.evals == 0:
+            self.evals = 1          # a derived case id that is reported without a case() of its own still counts as found by the replay
         v = {'property': self.prop, 'case': cid, 'site': site, 'kind': kind,
              'params': {k: _plain(x) for k, x in params.items()}, 'detail': str(detail)[:600]}
         for k in self.known:
